@@ -113,6 +113,7 @@ class Run:
         self.steps = 0
         self.alpha_ids = sorted({t['id'] for t in trace['universe']['tasks']}) + [0]
         self.released = set()
+        self.poisoned = 0
 
     def count(self, k, n=1):
         self.counters[k] = self.counters.get(k, 0) + n
@@ -164,10 +165,15 @@ class Run:
                 if mine:
                     self.violation = mine[0]
                     self.violation.step = i
-                else:
-                    self.other_violations = vs
-                    self.count('poisoned_by.' + vs[0].prop)
-                break
+                    break
+                self.other_violations = vs
+                self.count('poisoned_by.' + vs[0].prop)
+                # C01, C05 and C11 are pure state invariants: whatever state a history reaches must satisfy them,
+                # also a state reached after another property was broken, so those runs go on.  The step oracles
+                # (C10, C15, C16) compare against a model that presumes a sound pre-state: their runs stop here.
+                if self.prop not in ('C01', 'C05', 'C11'):
+                    break
+                self.poisoned += 1
             # bookkeeping for generator/probes
             self.update_versions(S0, S1)
             for t, d in S1['tasks'].items():
@@ -479,7 +485,7 @@ def regenerate(seed, prop, quarantine=()):
 
 TIER_RUNS = {
     'quick': {'default': 20000},
-    'thorough': {'default': 1000000},
+    'thorough': {'default': 500000},
 }
 
 # known-finding signature -> generator quarantine flags (shapes that are not generated in bulk)
